@@ -7,6 +7,7 @@ from .c01 import install_summaries
 
 DEFS = {'A': '[$]CC[$][$]', 'B': '[$]O[$][$]'}
 DEFS_CG = {'A': '[$][#P][#Q][$][$]', 'B': '[$][#R][$][$]'}
+THIRD = '{#P=[$]C[$][$][$],#Q=[$]C[$][$][$],#R=[$]N[$][$]}'      # a third resolution under DEFS_CG
 
 
 def insertions(base, vid):
@@ -153,6 +154,10 @@ class C11(core.Prop):
         # had a fragment of their own
         for s in [x for x in list(out) if x['virt'] and not x.get('entry')][1::3]:
             out.append(dict(s, entry='graph_resolved_before'))
+        # the same base graphs over three resolutions (beads, then atoms): whatever the first step notes about the virtual
+        # node is still there when the second step numbers its own nodes from 0
+        for s in [x for x in list(out) if not x['aa'] and x['virt'] and not x.get('entry') and len(x['virt']) == 1][::(2 if tier == 'quick' else 1)]:
+            out.append(dict(s, third=True))
         for s in out:
             s['g'].pop('_where', None)
         return out
@@ -176,6 +181,8 @@ class C11(core.Prop):
         text0, _ = gg.render(shape['base'], rec0)
         defs = DEFS if shape['aa'] else DEFS_CG
         ftext = '{' + ','.join('#%s=%s' % (k, v) for k, v in defs.items()) + '}'
+        if shape.get('third'):
+            ftext += '.' + THIRD
         vdefs = cat(*[cat(',#', rec['name'][str(v)], '=', ('[$]N[$][$]' if shape['aa'] else '[$][#Z][$][$]')) for v in shape['virt']])
         return {'text': cat('{', text, '}.', ftext), 'ref': cat('{', text0, '}.', ftext), 'holes': rec,
                 'full': cat(ftext[:-1], vdefs, '}')}
@@ -191,8 +198,9 @@ class C11(core.Prop):
                 meta, mol = res.resolve()
                 return {'meta': pl.meta_data(meta), 'mol': pl.graph_data(mol)}
             return [core.guard(run), core.guard(pl.run_resolver, M, inp['ref'], last_all_atom=shape['aa'])]
-        return [core.guard(pl.run_resolver, M, inp['text'], last_all_atom=shape['aa']),
-                core.guard(pl.run_resolver, M, inp['ref'], last_all_atom=shape['aa'])]
+        aa = shape['aa'] or bool(shape.get('third'))
+        return [core.guard(pl.run_resolver, M, inp['text'], last_all_atom=aa),
+                core.guard(pl.run_resolver, M, inp['ref'], last_all_atom=aa)]
 
     def oracle(self, shape, inp, obs):
         got, ref = obs
@@ -219,6 +227,10 @@ class C11(core.Prop):
         # key map: real coarse nodes keep their relative order
         real_keys = [i for i in range(len(order)) if i not in virt_idx]
         kmap = {k: j for j, k in enumerate(real_keys)}
+        if shape.get('third'):
+            # the coarse graph of the last step is the bead graph: the same keys with and without the inserted node
+            kmap = {k: k for k in ref[1]['meta']['nodes']}
+            virt_idx = []
         same_nodes = sorted(gm_['nodes']) == sorted(rm_['nodes'])
         cl.append(('fine_node_keys_unchanged', same_nodes))
         if same_nodes:
@@ -227,6 +239,8 @@ class C11(core.Prop):
                 all(gm_['nodes'][n].get(k) == rm_['nodes'][n].get(k) for k in keys) for n in gm_['nodes'])))
             cl.append(('fine_membership_unchanged', all(
                 [kmap.get(f, -1) for f in gm_['nodes'][n].get('fragid', [])] == rm_['nodes'][n].get('fragid') for n in gm_['nodes'])))
+            if shape.get('third'):
+                cl.append(('coarse_node_keys_unchanged', sorted(got[1]['meta']['nodes']) == sorted(ref[1]['meta']['nodes'])))
             e1 = sorted([sorted((a, b)), o] for a, b, o, _ in gm_['edges'])
             e2 = sorted([sorted((a, b)), o] for a, b, o, _ in rm_['edges'])
             cl.append(('fine_bonds_unchanged', e1 == e2))
@@ -255,5 +269,5 @@ class C11(core.Prop):
 PROP = C11()
 
 # shape families added after the first complete pass (DESIGN 8.6-8.11); appended to the bounds written into the evidence
-BOUNDS_ADDED = "; plus: every third shape through from_graph, base graph resolved before (virtual node had a fragment then), '.12' ring markers, five virtual nodes in front of a four-bead ring"
+BOUNDS_ADDED = "; plus: every third shape through from_graph, base graph resolved before (virtual node had a fragment then), '.12' ring markers, five virtual nodes in front of a four-bead ring, three-resolution strings (virtual node in the base graph, beads, atoms), three-resolution strings (virtual node in the base graph, beads, atoms)"
 PROP.BOUNDS = {k: v + BOUNDS_ADDED for k, v in PROP.BOUNDS.items()}
